@@ -16,7 +16,7 @@ Comp(v3, k) == v3[k + 1]
 CmdStep(p, s, ev, t) ==
   CASE ev.c = "set" ->
          LET c == [k |-> ev.k, v |-> ev.v]
-         IN  IF c # s.cmd THEN [cmd |-> c, lastReq |-> Just(c), u |-> [c |-> "empty"]]
+         IN  IF c # s.cmd THEN [s EXCEPT !.cmd = c, !.lastReq = Just(c), !.u = [c |-> "empty"]]
                           ELSE [s EXCEPT !.lastReq = Just(c)]
     [] ev.c = "none" -> [s EXCEPT !.u = [c |-> "empty"]]
     [] ev.c = "err"  -> [s EXCEPT !.u = [c |-> "err", e |-> ev.e]]
